@@ -24,8 +24,9 @@ Traces == JsonDeserialize(IOEnv.TRACE_FILE)
 CT == INSTANCE Container
 H5 == INSTANCE H5Tree
 
-VARIABLES tid, i, bad
-vars == <<tid, i, bad>>
+VARIABLES tid, i, bad,
+          packed     \* embedded files (C17): path -> [tok, meta] as the reference tracks them
+vars == <<tid, i, bad, packed>>
 
 SeqToSet(s) == {s[j] : j \in DOMAIN s}
 Ref(r)      == <<r[1], <<r[2][1], r[2][2], r[2][3]>>>>
@@ -77,6 +78,7 @@ QueryExpected(env, C, start, s, v) ==
 
 (* ---- the operation as the reference sees it --------------------------------- *)
 TreeOps == {"create_group", "set_dataset", "delete", "set_attr", "del_attr", "copy", "move", "require_group"}
+MARK == "MARK"      \* the file whose content is exactly the IH5 deletion marker
 
 Accepts(env, C, a) ==
     CASE a.op = "attach" ->
@@ -87,10 +89,15 @@ Accepts(env, C, a) ==
             /\ ~\E m \in C.meta : m.node = a.p /\ m.schema[1] = a.schema
       [] a.op = "detach"   -> \E m \in C.meta : m.node = a.p /\ m.schema[1] = a.schema
       [] a.op \in {"reserved", "passthrough"} -> FALSE
+      [] a.op = "pack"     -> H5!CanCreate(C.tree, a.p) /\ a.tok # MARK
       [] a.op \in TreeOps  -> H5!Apply(C.tree, a).ok
       [] OTHER -> TRUE
 
-ExpectedTree(C, a) == IF a.op \in TreeOps THEN H5!Apply(C.tree, a).t ELSE C.tree
+ExpectedTree(C, a, P) ==
+    IF a.op \in TreeOps THEN H5!Apply(C.tree, a).t
+    ELSE IF a.op = "pack" /\ H5!Has(P.tree, a.p)
+    THEN H5!SetDataset(C.tree, a.p, H5!NodeAt(P.tree, a.p).v).t      \* the bytes are judged by embedded_bytes_exact
+    ELSE C.tree
 
 Core(M) == {[node |-> m.node, isds |-> m.isds, schema |-> m.schema, content |-> m.content] : m \in M}
 
@@ -110,6 +117,10 @@ ExpectedCore(env, C, a, post) ==
                 new == {m \in post.meta : m.node = a.p /\ m.schema[1] = a.schema}
             IN Core(C.meta) \cup {[node |-> a.p, isds |-> H5!IsData(C.tree, a.p), schema |-> r, content |-> m.content] : m \in new}
       [] a.op = "detach" -> Core({m \in C.meta : ~(m.node = a.p /\ m.schema[1] = a.schema)})
+      [] a.op = "pack" ->
+            LET r == Resolve(env, "core.file", <<>>)
+                new == {m \in post.meta : m.node = a.p /\ m.schema[1] = "core.file"}
+            IN Core(C.meta) \cup {[node |-> a.p, isds |-> TRUE, schema |-> r, content |-> m.content] : m \in new}
       [] OTHER -> Core(C.meta)
 
 UuidsStable(C, a, post, ok) ==
@@ -127,6 +138,29 @@ SelfDescribing(env, C) ==
 
 TocSync(env, C) == CT!TOCSync(C, env)
 
+(* ---- C17: embedded files ---- *)
+PackedAfter(pk, a, acc) ==
+    IF ~acc THEN pk
+    ELSE CASE a.op = "pack"   -> [x \in DOMAIN pk \cup {a.p} |-> IF x = a.p THEN [tok |-> a.tok, meta |-> TRUE] ELSE pk[x]]
+           [] a.op = "delete" -> [x \in {y \in DOMAIN pk : ~H5!Under(a.p, y)} |-> pk[x]]
+           [] a.op = "move"   ->
+                [x \in {IF H5!Under(a.p, y) THEN H5!Rebase(y, a.p, a.q) ELSE y : y \in DOMAIN pk} |->
+                    LET src == CHOOSE y \in DOMAIN pk : x = (IF H5!Under(a.p, y) THEN H5!Rebase(y, a.p, a.q) ELSE y) IN pk[src]]
+           [] a.op = "copy"   ->
+                [x \in DOMAIN pk \cup {H5!Rebase(y, a.p, a.q) : y \in {z \in DOMAIN pk : H5!Under(a.p, z)}} |->
+                    IF x \in DOMAIN pk THEN pk[x]
+                    ELSE LET src == CHOOSE y \in DOMAIN pk : H5!Under(a.p, y) /\ H5!Rebase(y, a.p, a.q) = x IN
+                         [tok |-> pk[src].tok, meta |-> pk[src].meta /\ ~a.without_meta]]
+           [] a.op = "detach" -> [x \in DOMAIN pk |-> IF x = a.p /\ a.schema = "core.file" THEN [pk[x] EXCEPT !.meta = FALSE] ELSE pk[x]]
+           [] OTHER -> pk
+
+FileClauses(env, pk, d) ==
+    LET F == SeqToSet(d.files) IN
+    (IF \E p \in DOMAIN pk : ~\E r \in F : r.p = p /\ r.tok = pk[p].tok THEN {"embedded_bytes_exact"} ELSE {})
+    \cup (IF \E p \in DOMAIN pk : pk[p].meta /\ ~\E r \in F :
+                  r.p = p /\ r.hasmeta /\ r.size = env.pool[pk[p].tok][1] /\ r.sha = env.pool[pk[p].tok][2]
+          THEN {"file_metadata_exact"} ELSE {})
+
 DriverClauses(env, a, pd, d) ==
     LET C == StateOf(pd) P == StateOf(d) ok == d.ok
         acc == Accepts(env, C, a)
@@ -136,7 +170,7 @@ DriverClauses(env, a, pd, d) ==
     \cup (IF d.obs_err # "" THEN {"state_observable"} ELSE {})
     \cup (IF d.obs_err = "" /\ ~d.timeout THEN
     (IF ok # acc THEN {"ok_matches_reference"} ELSE {})
-    \cup (IF P.tree # (IF ok THEN ExpectedTree(C, a) ELSE C.tree) THEN {"tree_is_apply_of_reference"} ELSE {})
+    \cup (IF P.tree # (IF ok THEN ExpectedTree(C, a, P) ELSE C.tree) THEN {"tree_is_apply_of_reference"} ELSE {})
     \cup (IF Core(P.meta) # (IF ok THEN ExpectedCore(env, C, a, P) ELSE Core(C.meta)) THEN {"meta_follows_reference"} ELSE {})
     \cup (IF ~UuidsStable(C, a, P, ok) THEN {"uuids_stable"} ELSE {})
     \cup (IF ~ok /\ P # C THEN {"failed_op_changes_nothing"} ELSE {})
@@ -170,17 +204,21 @@ Agree(d1, d2) ==
     /\ SeqToSet(d1.uview) = SeqToSet(d2.uview)
     /\ [j \in DOMAIN d1.queries |-> SeqToSet(d1.queries[j].result)] = [j \in DOMAIN d2.queries |-> SeqToSet(d2.queries[j].result)]
 
-Clauses(T, j) ==
-    LET e == T[j] pe == T[j - 1] env == e.env IN
+Clauses(T, j, pk) ==
+    LET e == T[j] pe == T[j - 1] env == e.env
+        pk2 == PackedAfter(pk, e.a, Accepts(env, StateOf(pe.d[1]), e.a)) IN
     UNION {{<<c, e.d[k].drv>> : c \in DriverClauses(env, e.a, pe.d[k], e.d[k])} : k \in DOMAIN e.d}
+    \cup UNION {{<<c, e.d[k].drv>> : c \in IF e.d[k].obs_err = "" THEN FileClauses(env, pk2, e.d[k]) ELSE {}} : k \in DOMAIN e.d}
     \cup (IF \E k \in DOMAIN e.d : ~Agree(e.d[1], e.d[k]) /\ e.d[k].obs_err = "" /\ e.d[1].obs_err = ""
           THEN {<<"drivers_agree", "all">>} ELSE {})
 
-Init == tid \in 1..Len(Traces) /\ i = 1 /\ bad = {}
+Init == tid \in 1..Len(Traces) /\ i = 1 /\ bad = {} /\ packed = <<>>
 
 Step ==
     /\ i < Len(Traces[tid])
-    /\ bad' = bad \cup {<<i + 1, c[1], c[2]>> : c \in Clauses(Traces[tid], i + 1)}
+    /\ LET T == Traces[tid] e == T[i + 1] IN
+       /\ bad' = bad \cup {<<i + 1, c[1], c[2]>> : c \in Clauses(T, i + 1, packed)}
+       /\ packed' = PackedAfter(packed, e.a, Accepts(e.env, StateOf(T[i].d[1]), e.a))
     /\ i' = i + 1
     /\ UNCHANGED tid
 
@@ -188,7 +226,7 @@ Done ==
     /\ i = Len(Traces[tid])
     /\ TLCSet(tid, bad)
     /\ i' = i + 1
-    /\ UNCHANGED <<tid, bad>>
+    /\ UNCHANGED <<tid, bad, packed>>
 
 TraceSpec == Init /\ [][Step \/ Done]_vars
 
